@@ -846,6 +846,24 @@ BLOCK_SIZES = {"md5": 64, "sha1": 64, "sha224": 64, "sha256": 64, "sha384": 128,
 DIGEST_CALLS = []   # log of (alg, nbytes) for reachability evidence
 
 
+#: when True, every digest output is given a fresh name with the defining equation recorded as a path fact: what follows
+#: (encoding, rendering, parsing) then works on plain variables instead of ever-growing nested applications
+FRESH_DIGESTS = False
+
+
+def _named(out):
+    if not FRESH_DIGESTS or sym.CTX is None or not z3.is_app(out) or out.decl().arity() == 0:
+        return out
+    v = z3.BitVec(sym.fresh("dg"), out.size())
+    DIGEST_DEFS[v.get_id()] = (v, out)
+    sym.note(("def", v, out))
+    return v
+
+
+#: name -> defining application, for the digest outputs named on the current run (see primenv.cone)
+DIGEST_DEFS = {}
+
+
 class SHash:
     """hashlib-like object whose digest is an uninterpreted function of the accumulated input"""
 
@@ -891,7 +909,7 @@ class SHash:
                 out = z3.BitVec("%s_empty" % self.name, 8 * n)
             else:
                 out = uf(self.name, 8 * len(allb), 8 * n)(SBytes._norm_list(allb).bv())
-        return bytes_of(out, n)
+        return bytes_of(_named(out), n)
 
     def hexdigest(self):
         raise Unsupported("hexdigest of symbolic digest")
